@@ -404,5 +404,34 @@ def _filter_norm(test, target):
     return dump(R().visit(copy.deepcopy(test)))
 
 
+def rule_keys(repo, tier):
+    res = RuleResult('C07.KEYS', 'the hyper-parameter keys a strategy contributes to the parameter group do not collide with the keys the optimiser '
+                     'owns (min, max: the clamp of the Hessian diagonal): LevenbergMarquardt merges the strategy defaults over its own', floor=3)
+    f = repo.func(OPT, 'LevenbergMarquardt.__init__')
+    own = set()
+    for n in ast.walk(f.node):
+        if isinstance(n, ast.Dict) and any(isinstance(k, ast.Constant) and k.value in ('min', 'max') for k in n.keys):
+            own |= {k.value for k in n.keys if isinstance(k, ast.Constant)}
+    if not own:
+        raise AnalysisError('C07.KEYS: LevenbergMarquardt.__init__ no longer builds its {min, max} defaults')
+    sm = repo.module('pypose.optim.strategy')
+    for c in sm.classes.values():
+        init = c.methods.get('__init__')
+        if init is None:
+            continue
+        keys = set()
+        for n in ast.walk(init.node):
+            if isinstance(n, ast.Assign) and any(dotted(t) == 'self.defaults' for t in n.targets) and isinstance(n.value, ast.Dict):
+                keys |= {k.value for k in n.value.keys if isinstance(k, ast.Constant)}
+        clash = sorted(keys & own)
+        res.inst({'class': c.fq, 'defaults_keys': sorted(keys), 'optimizer_keys': sorted(own), 'clash': clash}, c.fq)
+        if clash:
+            res.add(Finding('C07.KEYS', init, 'strategy %s puts %s into its defaults; LevenbergMarquardt merges them over its own clamp bounds, so '
+                            'A.diagonal().clamp_(pg[min], pg[max]) uses the strategy\'s damping bounds' % (c.name, clash), construct='key clash %s' % clash))
+    return res
+
+
 def rules(repo, tier):
-    return [rule_sys(repo, tier), rule_corr(repo, tier), rule_damp(repo, tier), rule_upd(repo, tier)]
+    from ..stale import rule_stale
+    return [rule_sys(repo, tier), rule_corr(repo, tier), rule_damp(repo, tier), rule_upd(repo, tier), rule_keys(repo, tier),
+            rule_stale(repo, 'C07.STALE', [(OPT, 'LevenbergMarquardt.step'), (OPT, 'GaussNewton.step')])]
